@@ -125,7 +125,9 @@ def rand_attrs(rng, n):
     out = []
     for i in range(n):
         q = 1 if rng.random() < 0.6 else 0
-        v = "".join(rng.choice(VCHARS) for _ in range(rng.choice([0, 1, 1, 2, 5])))
+        # values are mostly short; now and then as long as and longer than the limits that exist for names (a signature, a URL)
+        vlen = rng.choice([0, 1, 1, 2, 5]) if rng.random() > 0.06 else rng.choice([120, 245, 250, 251, 255, 256, 257, 300, 1000])
+        v = "".join(rng.choice(VCHARS) for _ in range(vlen))
         if not q and v.endswith("/"):
             v += "x"
         out.append((rng.choice(ANAMES) + (str(i) if rng.random() < 0.5 else ""), v, q))
